@@ -66,6 +66,12 @@ func sameOutcome(a engOut, r ref.Outcome) bool {
 	if a.Kind == "status" && a.Status == 200 {
 		a.Kind = "value"
 	}
+	if a.Kind == "unencodable" {
+		// the value holds a non-finite float (overflow to +Inf, NaN): JSON cannot carry it. The
+		// outcomes agree when the reference value cannot be encoded either.
+		_, err := canon(r.Val)
+		return (r.Kind == "value" || r.Kind == "status") && err != nil
+	}
 	if a.Kind != r.Kind {
 		return false
 	}
